@@ -196,6 +196,9 @@ def mapNode (leaf : Rd → Outcome Unit) (keySize : Nat) (ty : Nat) (bits : List
                   | (.err e, n2) => (.err e, 1 + n1 + n2)
                   | (.panic p, n2) => (.panic p, 1 + n1 + n2)
                   | (.ok ks2, n2) => (.ok (ks1 ++ ks2), 1 + n1 + n2)
+      else if ty = tyLibrary then
+        -- the value is decoded by the generic decoder, whose entry check rejects a library cell without a resolver
+        (.err "library cell decoding is not configured properly", 1)
       else
         match leaf r' with
         | .err e => (.err e, 1)
@@ -285,11 +288,12 @@ def chain (b : Nat) : Nat → Cell
 
 /-! ### BinTree and the VM stack list -/
 
-/-- one level of `decodeRecursiveBinTree`: number of leaves -/
-def binNode (bits : List Bool) (recL recR : Option (Walk Nat)) : Walk Nat :=
+/-- one level of `decodeRecursiveBinTree`: number of leaves. Every leaf is then handed to the generic decoder, whose
+entry check rejects a library cell when no resolver is configured. -/
+def binNode (ty : Nat) (bits : List Bool) (recL recR : Option (Walk Nat)) : Walk Nat :=
   match bits with
   | [] => (.err "not enough bits", 1)
-  | false :: _ => (.ok 1, 1)
+  | false :: _ => if ty = tyLibrary then (.err "library cell decoding is not configured properly", 1) else (.ok 1, 1)
   | true :: _ =>
     match recL with
     | none => (.err "not enough refs", 1)
@@ -303,8 +307,8 @@ def binNode (bits : List Bool) (recL recR : Option (Walk Nat)) : Walk Nat :=
       | some (.ok c2, n2) => (.ok (c1 + c2), 1 + n1 + n2)
 
 def binTree : Cell → Walk Nat
-  | .mk _ _ bits refs =>
-    binNode bits (match refs with | l :: _ => some (binTree l) | [] => none)
+  | .mk ty _ bits refs =>
+    binNode ty bits (match refs with | l :: _ => some (binTree l) | [] => none)
       (match refs with | _ :: r :: _ => some (binTree r) | _ => none)
 
 /-- one level of `getStackListItems(c, depth)`: follows the first reference `depth` times (depth: 24 bits from the
